@@ -138,8 +138,8 @@ def evalSparse (st : DState) (name : String) (t : List String) (impl : String) :
     buildWith n true vals "sp.from_iter"
   | [op, src] =>
     if op == "copy_of" || op == "from" then
-      match refBits st src with
-      | some B => buildWith B.length false (onesPos B) "sp.copy"
+      match refSet st src with
+      | some (n, P) => buildWith n false P "sp.copy"
       | none => { st := st, model := "panic:no-object" }
     else evalSpQ st name t m
   | "builder" :: n :: ones :: multi :: rest =>
